@@ -13,6 +13,19 @@ ops (one block = `begin …`, transactions, `end`):
                                                observed from the implementation
   end
   dump
+
+Every verdict is the property evaluated on the *observed* history: the driver keeps, next to the
+model's state, a store rebuilt only from the implementation's own answers (results, typed events,
+dumps) and judges each implementation output against that store — at most once (`ran_twice`), only
+detected (`ran_before_detection`, `ran_unknown_trigger`), FIFO (`fifo_order`), caps (`cap_count`,
+`cap_gas`), no starvation (`stopped_early`), all or nothing (`success_with_failed_action`,
+`not_all_or_nothing:*`), detection (`detected_twice`, `detected_unregistered`,
+`detected_without_condition`), creation (`action_signer_not_authority`, `gas_limit_above_cap`,
+`gas_not_prepaid`, `id_reused`), destruction (`destroyed_by_stranger`, `destroyed_while_queued`,
+`destroyed_nonexistent`, `owner_cannot_destroy`), one place (`two_places`, `queued_twice`,
+`listener_mismatch`, `gas_limit_mismatch`, `queue_counters`, `id_out_of_range`), totality
+(`beginblock_panic`, `endblock_panic:*`).  A disagreement between model and implementation that
+breaks none of these is left to the correspondence diff.
 -/
 import PvModel.TrigSpec
 -- registry: trig PvModel.Trig.driver
@@ -23,15 +36,20 @@ open PvModel
 def accounts : List Addr := ["A", "B", "C", "D", "E"]
 def denom : String := "vcoin"
 
-/-- driver state: keeper+bank state, the current block header, its tx-event history, and ghosts
-for the checker (ids already executed, the creating message of every id). -/
+/-- driver state: the model's keeper+bank state `s`, the current block header and its tx-event
+history, and — for the checker — the *observed* state `o`: the same kind of store, but rebuilt only
+from what the implementation answered (its results, its dumps), plus the ids the implementation
+reported as executed and every trigger the implementation accepted.  Verdicts are evaluated on `o`,
+never on `s`: they are the property on the observed history, whatever the model thinks. -/
 structure DState where
   s : State := State.init
   height : Nat := 0
   time : Nat := 0
   events : List AbciEvent := []
+  o : State := State.init
+  oevents : List AbciEvent := []     -- the block's event history as the implementation printed it
   executed : List Nat := []
-  msgs : List (Nat × CreateMsg) := []
+  known : List (Nat × Trigger) := []
 
 private def unesc (s : String) : String := s.replace "~" " "
 
@@ -130,38 +148,38 @@ def verdictBegin (d : DState) (impl : String) : String :=
   if ws.head? != some "ok" then "fail:beginblock_panic" else
   let xs := parseImplExec (field ws "exec")
   let ids := xs.map (·.id)
-  let q := qIds d.s
+  let q := qIds d.o
   let rec order (ids q : List Nat) (seen : List Nat) : Option String :=
     match ids, q with
     | [], _ => none
     | i :: is, qh :: qt =>
       if i = qh then order is qt (i :: seen)
       else if seen.contains i ∨ d.executed.contains i then some "fail:ran_twice"
-      else if registered d.s i then some "fail:ran_before_detection"
+      else if registered d.o i then some "fail:ran_before_detection"
       else if (qh :: qt).contains i then some "fail:fifo_order"
       else some "fail:ran_unknown_trigger"
     | i :: _, [] =>
       if seen.contains i ∨ d.executed.contains i then some "fail:ran_twice"
-      else if registered d.s i then some "fail:ran_before_detection"
+      else if registered d.o i then some "fail:ran_before_detection"
       else some "fail:ran_unknown_trigger"
   match order ids q [] with
   | some f => f
   | none =>
-    let gasOf (i : Nat) := (d.s.gasLimits i).getD 0
+    let gasOf (i : Nat) := (d.o.gasLimits i).getD 0
     if ids.length > MaximumActions then "fail:cap_count"
     else if (ids.map gasOf).sum > MaximumQueueGas then "fail:cap_gas"
-    else if ids.length < fitCount d.s q MaximumActions 0 then "fail:stopped_early"
+    else if ids.length < fitCount d.o q MaximumActions 0 then "fail:stopped_early"
     else
-      let items := (qList d.s).take ids.length
+      let items := (qList d.o).take ids.length
       let execs : List Exec := (xs.zip items).map fun (x, it) =>
         ⟨x.id, gasOf x.id, x.success, [], it.trigger.actions⟩
       let badSucc := (xs.zip items).any fun (x, it) =>
         x.success && (x.outs.any (· != "ok") || x.outs.length != it.trigger.actions.length)
       if badSucc then "fail:success_with_failed_action"
       else
-        let exp := expectedBal d.s.bal execs
+        let exp := expectedBal d.o.bal execs
         let kills := killsOf execs
-        let expReg := (regIds d.s).filter fun i => !kills.contains i
+        let expReg := (regIds d.o).filter fun i => !kills.contains i
         if balStr exp != field ws "bal" then "fail:not_all_or_nothing:balances"
         else if expReg != natList (field ws "reg") then "fail:not_all_or_nothing:registry"
         else "ok"
@@ -174,7 +192,7 @@ def isPoison (t : Trigger) : Bool :=
 def verdictEnd (d : DState) (impl : String) : String :=
   let ws := words impl
   if ws.head? != some "ok" then
-    if (regIds d.s).any fun i => ((d.s.triggers i).map isPoison).getD false
+    if (regIds d.o).any fun i => ((d.o.triggers i).map isPoison).getD false
     then "fail:endblock_panic:txevent_named_as_block_prefix" else "fail:endblock_panic:other"
   else
     let ids := natList (field ws "det")
@@ -183,10 +201,10 @@ def verdictEnd (d : DState) (impl : String) : String :=
       | [] => "ok"
       | i :: is =>
         if seen.contains i then "fail:detected_twice"
-        else match d.s.triggers i with
+        else match d.o.triggers i with
           | none => "fail:detected_unregistered"
           | some t =>
-            if !conditionMet t.event d.events d.height d.time then "fail:detected_without_condition"
+            if !conditionMet t.event d.oevents d.height d.time then "fail:detected_without_condition"
             else go is (i :: seen)
     go ids []
 
@@ -198,13 +216,13 @@ def verdictCreate (d : DState) (m : CreateMsg) (rem : Nat) (impl : String) : Str
     if !signersCovered m then "fail:action_signer_not_authority"
     else if g > MaximumTriggerGas then "fail:gas_limit_above_cap"
     else if g + SetGasLimitCost > rem then "fail:gas_not_prepaid"
-    else if place d.s id != .unborn then "fail:id_reused"
+    else if place d.o id != .unborn then "fail:id_reused"
     else "ok"
   | _, _ => "fail:create_output_unreadable"
 
 def verdictDestroy (d : DState) (auth : Addr) (id : Nat) (impl : String) : String :=
   let r := (words impl).headD ""
-  match place d.s id, d.s.triggers id with
+  match place d.o id, d.o.triggers id with
   | .waiting, some t =>
     if r == "ok" then (if t.owner == auth then "ok" else "fail:destroyed_by_stranger")
     else if t.owner == auth ∧ validAddr auth then "fail:owner_cannot_destroy" else "ok"
@@ -241,6 +259,75 @@ def verdictDump (impl : String) : String :=
     else "ok"
   | _ => "fail:dump_unreadable"
 
+/-! ### the observed state: rebuilt from the implementation's answers only -/
+
+private def lookupNat {α} (xs : List (Nat × α)) (i : Nat) : Option α := (xs.find? (·.1 == i)).map (·.2)
+
+/-- resynchronise with a dump printed by the implementation -/
+def resync (d : DState) (impl : String) : State :=
+  let ws := words impl
+  let pairs (k : String) : List (Nat × String) := (splitList (field ws k) ",").filterMap fun (e : String) =>
+    match e.splitOn ":" with
+    | [a, b] => (parseNat? a).map (·, b)
+    | _ => none
+  let reg := pairs "reg"
+  let gas := (pairs "gas").filterMap fun e => (parseNat? e.2).map (e.1, ·)
+  let trig (i : Nat) (owner : String) : Trigger :=
+    match lookupNat d.known i with
+    | some t => t
+    | none => ⟨i, owner, .height 0, []⟩
+  let (start, len, items) := match (field ws "q").splitOn ":" with
+    | [st, ln, items] =>
+      ((parseNat? st).getD 1, (parseNat? ln).getD 0, (splitList items ",").filterMap fun (e : String) =>
+        match e.splitOn "." with
+        | [i, id, h] => match parseNat? i, parseNat? id, parseNat? h with
+          | some i, some id, some h => some (i, (⟨trig id "?", 0, h⟩ : QItem))
+          | _, _, _ => none
+        | _ => none)
+    | _ => (1, 0, [])
+  let bal := (splitList (field ws "bal") ",").filterMap fun (e : String) =>
+    match e.splitOn ":" with
+    | [a, b] => (parseNat? b).map (a, ·)
+    | _ => none
+  { nextId := ((kv ws "next").bind parseNat?).getD 1
+    triggers := fun i => (lookupNat reg i).map (trig i)
+    listeners := []
+    gasLimits := lookupNat gas
+    qItems := lookupNat items
+    qStart := start
+    qLen := len
+    bal := fun a => ((bal.find? (fun (p : String × Nat) => p.1 == a)).map (·.2)).getD 0 }
+
+private def parseBal (s : String) (dflt : Addr → Nat) : Addr → Nat :=
+  let bal := (splitList s ",").filterMap fun (e : String) =>
+    match e.splitOn ":" with
+    | [a, b] => (parseNat? b).map (a, ·)
+    | _ => none
+  fun a => ((bal.find? (fun (p : String × Nat) => p.1 == a)).map (·.2)).getD (dflt a)
+
+/-- the observed state after the implementation's BeginBlock: its executed triggers leave the queue
+(and lose their gas limit), balances and registry are the ones it printed -/
+def observeBegin (o : State) (impl : String) : State :=
+  let ws := words impl
+  let xs := parseImplExec (field ws "exec")
+  let o := xs.foldl (fun o x => removeGasLimit (if o.qLen = 0 then o else dequeue o) x.id) o
+  let reg := natList (field ws "reg")
+  { o with bal := parseBal (field ws "bal") o.bal
+           triggers := fun i => if reg.contains i then o.triggers i else none }
+
+def observeEnd (o : State) (h t : Nat) (impl : String) : State :=
+  (natList (field (words impl) "det")).foldl (fun o i =>
+    match o.triggers i with
+    | some tr => queueTrigger (removeTrigger o i) tr h t
+    | none => o) o
+
+/-- `type[k=v&k=v];type[…]` as printed for a `pay` -/
+def parsePrintedEvents (s : String) : List AbciEvent :=
+  (splitList s ";").filterMap fun (e : String) =>
+    match e.splitOn "[" with
+    | [ty, rest] => some ⟨unesc ty, parseAttrs ((rest.splitOn "]").headD "")⟩
+    | _ => none
+
 /-! ### stepping -/
 
 def parseCreate (ws : List String) : Option (CreateMsg × Nat) := do
@@ -252,58 +339,92 @@ def parseCreate (ws : List String) : Option (CreateMsg × Nat) := do
 
 def stepOp (d : DState) (ws : List String) (impl : Option String) : DState × String × String :=
   let v (f : String → String) : String := match impl with | some i => f i | none => "-"
+  /- `obs f` = the new observed state: `f` applied to the implementation's answer, or the model's
+  own new state when the line carries no implementation output -/
+  let implOk : Bool := match impl with | some i => (words i).head? == some "ok" | none => false
   match ws with
-  | ["dump"] => (d, dump d.s, v verdictDump)
+  | ["dump"] =>
+    let o := match impl with | some i => resync d i | none => d.s
+    ({ d with o := o }, dump d.s, v verdictDump)
   | ["fund", a, amt] =>
     match parseNat? amt with
-    | some n => ({ d with s := (step d.s (.fund a n)).1 }, "ok", "-")
+    | some n => ({ d with s := (step d.s (.fund a n)).1, o := (step d.o (.fund a n)).1 }, "ok", "-")
     | none => (d, "bad-op", "-")
   | ["pay", f, t, amt] =>
     match parseNat? amt with
     | some n =>
+      let o := if implOk then (match bankSend d.o f t n with | .ok o' => o' | .error _ => d.o) else d.o
+      let oev := match impl with
+        | some i => if implOk then parsePrintedEvents ((words i).getD 1 "-") else []
+        | none => []
       match bankSend d.s f t n with
       | .ok s' =>
         let evs := sendEvents f t n denom
-        ({ d with s := s', events := d.events ++ evs }, "ok " ++ ";".intercalate (evs.map abciStr), "-")
-      | .error e => (d, "err:" ++ e.toString, "-")
+        ({ d with s := s', o := if impl.isNone then s' else o, events := d.events ++ evs,
+                  oevents := d.oevents ++ (if impl.isNone then evs else oev) },
+         "ok " ++ ";".intercalate (evs.map abciStr), "-")
+      | .error e => ({ d with o := o, oevents := d.oevents ++ oev }, "err:" ++ e.toString, "-")
     | none => (d, "bad-op", "-")
   | ["emit", e] =>
     match parseAbci e with
-    | some ev => ({ d with events := d.events ++ [ev] }, "ok", "-")
+    | some ev => ({ d with events := d.events ++ [ev], oevents := d.oevents ++ [ev] }, "ok", "-")
     | none => (d, "bad-op", "-")
   | "create" :: rest =>
     match parseCreate rest with
     | none => (d, "bad-op", "-")
     | some (m, rem) =>
       let vd := v (verdictCreate d m rem)
+      -- what the implementation says it stored
+      let (o, known) := match impl with
+        | some i =>
+          let iw := words i
+          match implOk, (kv iw "id").bind parseNat?, (kv iw "gas").bind parseNat? with
+          | true, some id, some g =>
+            let t : Trigger := ⟨id, m.authorities.headD "?", m.event, m.actions⟩
+            (setGasLimit (setTrigger { d.o with nextId := id + 1 } t) id g, (id, t) :: d.known)
+          | _, _, _ => (d.o, d.known)
+        | none => (d.o, d.known)
       match createTrigger d.s m rem d.height d.time with
-      | .ok (s', id, g) => ({ d with s := s', msgs := (id, m) :: d.msgs }, s!"ok id={id} gas={g}", vd)
-      | .error e => (d, "err:" ++ e.toString, vd)
+      | .ok (s', id, g) =>
+        let t : Trigger := ⟨id, m.authorities.headD "?", m.event, m.actions⟩
+        ({ d with s := s', o := if impl.isNone then s' else o,
+                  known := if impl.isNone then (id, t) :: d.known else known },
+         s!"ok id={id} gas={g}", vd)
+      | .error e => ({ d with o := o, known := known }, "err:" ++ e.toString, vd)
   | ["destroy", auth, id] =>
     match parseNat? id with
     | none => (d, "bad-op", "-")
     | some id =>
       let vd := v (verdictDestroy d auth id)
+      let o := if implOk then removeGasLimit (removeTrigger d.o id) id else d.o
       match destroyTrigger d.s auth id with
-      | .ok s' => ({ d with s := s' }, "ok", vd)
-      | .error e => (d, "err:" ++ e.toString, vd)
+      | .ok s' => ({ d with s := s', o := if impl.isNone then s' else o }, "ok", vd)
+      | .error e => ({ d with o := o }, "err:" ++ e.toString, vd)
   | "begin" :: rest =>
     match (kv rest "h") >>= parseNat?, (kv rest "t") >>= parseNat? with
     | some h, some t =>
       let oogs := parseOog (field rest "oog")
-      let d := { d with height := h, time := t, events := [] }
+      let d := { d with height := h, time := t, events := [], oevents := [] }
       let vd := v (verdictBegin d)
+      let (o, ex) := match impl with
+        | some i => if implOk then (observeBegin d.o i, (parseImplExec (field (words i) "exec")).map (fun (x : ImplExec) => x.id)) else (d.o, [])
+        | none => (d.o, [])
       match processTriggers d.s (fun id i => oogs.contains (id, i)) with
       | some (s', xs) =>
-        ({ d with s := s', executed := xs.map (·.id) ++ d.executed },
+        ({ d with s := s', o := if impl.isNone then s' else o,
+                  executed := (if impl.isNone then xs.map (fun (x : Exec) => x.id) else ex) ++ d.executed },
          s!"ok exec={j (xs.map execStr)} bal={balStr s'.bal} reg={j ((regIds s').map toString)}", vd)
-      | none => (d, "panic", vd)
+      | none => ({ d with o := o, executed := ex ++ d.executed }, "panic", vd)
     | _, _ => (d, "bad-op", "-")
   | ["end"] =>
     let vd := v (verdictEnd d)
+    let o := match impl with
+      | some i => if implOk then observeEnd d.o d.height d.time i else d.o
+      | none => d.o
     match detectBlockEvents d.s d.events d.height d.time with
-    | some (s', ts) => ({ d with s := s' }, s!"ok det={j (ts.map fun t => toString t.id)}", vd)
-    | none => (d, "panic", vd)
+    | some (s', ts) => ({ d with s := s', o := if impl.isNone then s' else o },
+        s!"ok det={j (ts.map fun t => toString t.id)}", vd)
+    | none => ({ d with o := o }, "panic", vd)
   | _ => (d, "bad-op", "-")
 
 def driver : Driver where
